@@ -73,6 +73,8 @@ class Fn:
                     for nm in ("m_","reps_"):
                         if nm not in loc and nm not in self.params: loc.append(nm)
                 if isinstance(n,ast.ListComp) and "acc_" not in loc: loc.append("acc_")
+        for n in ast.walk(fn):
+            if isinstance(n,ast.DictComp) and "acc_" not in loc: loc.append("acc_")
         self.vars=self.params+loc
         self.is_method = cls is not None and self.params and self.params[0] in ("self",)
         # a method that calls .write(...) on a parameter (a file-like object modelled as the list of strings written): that parameter is returned too
@@ -234,6 +236,13 @@ class Fn:
                 return "v_acc_"
             t=self.tmp(); binds.append("%s <- py_for %s (fun x_ acc_ => let v_%s := x_ in %sNormal (acc_ ++ [%s])%%list) (@nil pyval) ;; "%(t,items,g.target.id,"".join(sub),el))
             return "(VList %s)"%t
+        if isinstance(e,ast.DictComp) and len(e.generators)==1 and not e.generators[0].ifs and isinstance(e.generators[0].target,ast.Name) and e.generators[0].target.id in self.vars and "acc_" in self.vars:
+            # {K: V for x in ITER}: a loop over the whole state (K, V may update self) filling a dict in iteration order (a repeated key keeps its first position, last value)
+            g=e.generators[0]; it=self.ex(g.iter,binds); items=self.tmp(); binds.append("%s <- py_iter %s ;; "%(items,it))
+            sub=[]; k=self.ex(e.key,sub); v=self.ex(e.value,sub); ta=self.tmp()
+            binds.append("let v_acc_ := (VDict []) in e_ <- py_for %s (fun x_ %s => let v_%s := x_ in %s%s <- py_setitem v_acc_ %s %s ;; let v_acc_ := %s in Normal %s) %s ;; let %s := e_ in "
+                         %(items,self.pat(),g.target.id,"".join(sub),ta,k,v,ta,self.env(),self.env(),self.pat()))
+            return "v_acc_"
         if isinstance(e,ast.JoinedStr):
             acc=None
             for p_ in e.values:
